@@ -283,6 +283,56 @@ class Body:
                     dq.append(d)
         return seen
 
+    def flag_locals(self):
+        """bool locals whose every definition is a constant (drop flags)"""
+        if 'flags' not in self._cache:
+            const, other = set(), set()
+            for i, b in enumerate(self.blocks):
+                for s in b['stmts']:
+                    if s['k'] == 'assign' and not s['place']['p']:
+                        l = s['place']['l']
+                        if s['rv']['k'] == 'use' and s['rv']['op']['k'] == 'const' and self.locals[l]['ty'] == 'bool':
+                            const.add(l)
+                        else:
+                            other.add(l)
+                t = b['term']
+                if t['k'] == 'call' and not t['dest']['p']:
+                    other.add(t['dest']['l'])
+            self._cache['flags'] = const - other
+        return self._cache['flags']
+
+    def reachable_with_flags(self, start, flags_at_start, removed_blocks=(), unwind=True):
+        """reachability that follows drop flags: states are (block, values of the flag locals); a switch on a flag
+        whose value is known takes only the matching edge.  Returns {(bb, frozenset(flag values))}."""
+        fl = sorted(self.flag_locals())
+        removed = set(removed_blocks)
+        st0 = tuple(flags_at_start.get(f) for f in fl)
+        seen = set()
+        work = [(start, st0)]
+        while work:
+            bb, st = work.pop()
+            if bb in removed or (bb, st) in seen or len(seen) > 20000:
+                continue
+            seen.add((bb, st))
+            cur = list(st)
+            for s in self.blocks[bb]['stmts']:
+                if s['k'] == 'assign' and not s['place']['p'] and s['place']['l'] in fl and s['rv']['k'] == 'use' and s['rv']['op']['k'] == 'const':
+                    cur[fl.index(s['place']['l'])] = s['rv']['op'].get('bits') != '0'
+            t = self.blocks[bb]['term']
+            nxt = [d for d, _ in self.edges(bb, unwind)]
+            if t['k'] == 'switch':
+                l = op_bare_local(t['discr'])
+                if l in fl and cur[fl.index(l)] is not None:
+                    v = '1' if cur[fl.index(l)] else '0'
+                    tg = t['otherwise']
+                    for val, x in t['targets']:
+                        if str(val) == v:
+                            tg = x
+                    nxt = [tg]
+            for d in nxt:
+                work.append((d, tuple(cur)))
+        return {(bb, tuple(zip(fl, st))) for bb, st in seen}
+
     def live_blocks(self, unwind=True):
         key = ('live', unwind)
         if key not in self._cache:
